@@ -99,6 +99,14 @@ CLAIMS["C17"] = ("proof", "predicate (trait-bound) rule over the resolved call g
     "twin compiles.",
     "DESIGN.md §4 C17", "Trusted: rustc nightly 1.97 trait solver and predicates_of; the witness generator.")
 
+CLAIMS["C15"] = ("other", "memory-ordering discipline: enumeration of every atomic site with constant orderings + context classification with lifting",
+    "Necessary (and, for release/acquire chains on one location, the standard sufficient) condition: every publishing store/swap/CAS on a "
+    "pointer slot or the tree-bin lock word is >= Release, every raw observing load >= Acquire (guarded loads are SeqCst inside seize), the "
+    "dereferenced failure value of the bin CAS is loaded >= Acquire, and every weaker ordering sits where something else orders it: "
+    "private node, tree write-lock region (released by unlock_root's Release store), bin-lock region for Relaxed copies, or exclusive "
+    "access; helpers are lifted to their call sites. Not decided: full memory-model behaviour of whole executions.",
+    "DESIGN.md §4 C15", TRUST + " seize::Guard::protect loads SeqCst for pinned guards (read in seize 0.3.3 raw.rs).")
+
 NOT_APPLICABLE = {
     "C02": "Quantifies over all operation sequences x hashers x capacities and asserts equality of run-time values (return values, "
            "contents) with a reference map; no path-, type- or call-graph-shaped clause carries it. Its only structural clause "
